@@ -61,6 +61,7 @@ type shScenario struct {
 	SlowOps        bool          // dialling and closing the port take (a little) time and are scheduling points
 	TimeoutErrKind int           // how the transport reports a read timeout: 0 the bare sentinel, 1 *net.OpError, 2 a %w-annotated error
 	UnitBase       int           // caller i uses unit id UnitBase+i (0: the first caller addresses unit 0)
+	Epoch          bool          // three callers, more than 65536 calls in all
 	ShortTimeouts  bool          // network client with ReadTimeout 20 ms / WriteTimeout 2 ms (the device answers within 3 ms)
 }
 
@@ -114,9 +115,27 @@ func genC14(t *Tape) *shScenario {
 	cc := t.Choose(4) // bit0: Close task, bit1: Connect task
 	val := uint16(1000 + t.Choose(1000))
 	many := t.Chance(1, 150)
+	epoch := t.Chance(1, 30000) || forceScenario == "epoch" // a few callers keep one client busy for more than 65536 calls
 	if many {
 		// a crowd of goroutines shares the client: most of them have to wait for their turn at the same time
 		n = []int{33, 65, 66, 70, 129, 130}[t.Choose(6)] + t.Choose(3)
+	}
+	if epoch {
+		many, n = false, 0
+		for c := 0; c < 3; c++ {
+			m := 21846 + t.Choose(40)
+			ops := make([]shOp, m)
+			for i := range ops {
+				switch {
+				case i%4096 == 7: // reads, and now and then a write (values stay unique) or a read of the server id
+					val++
+					ops[i] = shOp{Write: true, Addr: uint16(i % 4), Val: val}
+				case i%5000 == 2500:
+					ops[i] = shOp{SrvID: true}
+				}
+			}
+			sc.Callers = append(sc.Callers, ops)
+		}
 	}
 	for c := 0; c < n; c++ {
 		m := 1 + t.Choose(5)
@@ -160,7 +179,7 @@ func genC14(t *Tape) *shScenario {
 	sc.DevDelay = []time.Duration{0, 200 * time.Microsecond, 3 * time.Millisecond}[t.Choose(3)]
 	sc.Flusher = sc.Kind == KSerial && t.Choose(2) == 1
 	sc.FineGrained = t.Chance(1, 3) // other tasks may also run between SetReadDeadline and Read of one loop iteration
-	if t.Chance(1, 4) {
+	if !epoch && t.Chance(1, 4) {
 		sc.Cancels = true
 		sc.DevDelay = 3 * time.Millisecond
 		for c := range sc.Callers {
@@ -180,6 +199,9 @@ func genC14(t *Tape) *shScenario {
 	sc.TimeoutErrKind = t.Choose(3)
 	sc.UnitBase = 1 - t.Choose(4)/3 // 0 in a quarter of the runs
 	sc.ShortTimeouts = sc.Kind != KSerial && !sc.Cancels && t.Choose(3) == 0
+	if epoch {
+		sc.Epoch, sc.CloseAt, sc.ConnectAt, sc.Close2After = true, -1, -1, -1
+	}
 	return sc
 }
 
@@ -202,6 +224,12 @@ func runShared(rc *RunCtx, sc *shScenario) *shOutcome {
 	s := NewSim(rc.Sched)
 	s.Tracing = rc.Tracing
 	s.Free = sc.Race
+	if len(sc.Callers) > 24 {
+		s.MaxSteps = 200000
+	}
+	if sc.Epoch {
+		s.MaxSteps = 20000000
+	}
 	out := &shOutcome{}
 	defer s.Activate()()
 
@@ -714,7 +742,7 @@ func runC14(rc *RunCtx) {
 		if failed > 0 {
 			rc.Probe("history_with_failed_calls")
 		}
-		if len(sc.Callers) > 24 {
+		if len(sc.Callers) > 24 || sc.Epoch {
 			// a crowd whose calls all overlap: the search would not end in useful time, the transport monitors carry the check
 			rc.Probe("crowd_history_not_searched")
 			return
